@@ -386,6 +386,7 @@ func main() {
 	o := c.NewOut("C04")
 	o.ShardSize = 150
 	o.DeclareSuite("txn", "From Verif Require Import C04.Model.", "case", "run_case")
+	e2eDeclare(o) // suite "e2e" (e2e.go): selection + execution + combination in one run
 	o.Rule("hand-written witness configurations, then random configurations: 1-3 user flows (<= 6 request and <= 4 " +
 		"response processors each; Filter / GenerateResponse / MockProcessor / Limiter; fan-out <= 3; unreachable " +
 		"processors; response sides with and without entry point; answering processors with 0, 1 or several response " +
@@ -394,7 +395,11 @@ func main() {
 		"configuration every assignment of the Filter outcomes (all subsets of the steering headers when <= 4 Filters, " +
 		"else a sample with both extremes) as request and as response transactions; distinct = distinct (graph, " +
 		"selection, oracle, observed events); non-trivial = at least two processors ran and either a processor " +
-		"answered the request or a processor with several connections was passed")
+		"answered the request or a processor with several connections was passed" + e2eRule)
+	if e2eReplay(o) {
+		o.Finish()
+		return
+	}
 	var k Case
 	if _, ok := o.ReplayCase(&k); ok {
 		gs, err := k.Config.Compile()
@@ -434,5 +439,6 @@ func main() {
 		}
 		runConfig(o, cfg, txnsFor(cr, &cfg, o.Scale(12, 24, 12)), label)
 	}
+	e2eMain(o)
 	o.Finish()
 }
